@@ -419,7 +419,10 @@ func (b *Builder) findRegistryPackageSource(ctx context.Context, sourceAddr sour
 
 		var versionDeprecation *ModulePackageVersionDeprecation
 		for _, v := range availablePackageInfos {
-			if selectedVersion.Same(v.Version) {
+			// Exact equality, not Same: versions that differ only in their
+			// build metadata are distinct entries of the registry's list,
+			// each with its own deprecation.
+			if selectedVersion == v.Version {
 				versionDeprecation = v.Deprecation
 				break
 			}
